@@ -103,7 +103,12 @@ def views(case: dict, env: Env) -> list:
         cur: Att | None = None
         for e in body:
             if e[0] == "op":
-                cur = Att(n=e[1], t_op=e[2] - begin, t_end=None, kind=None, entry=script_entry(calls[j], e[1] - 1), t_op_s=e[3] - g(begin))
+                ent = script_entry(calls[j], e[1] - 1)
+                prev = atts[-1] if atts else None
+                if ent.get("reraise_prev") and prev is not None and prev.entry.get("kind") == "exc" and ent.get("kind") == "exc" and prev.entry.get("klass") == ent.get("klass"):
+                    # the operation raised the previous attempt's exception object again: its attributes travel with it
+                    ent = {**ent, **{k: prev.entry.get(k) for k in ("ra", "as_obj", "etype", "chain")}}
+                cur = Att(n=e[1], t_op=e[2] - begin, t_end=None, kind=None, entry=ent, t_op_s=e[3] - g(begin))
                 atts.append(cur)
             elif e[0] == "op_end" and cur is not None and cur.t_end is None:
                 cur.t_end = e[2] - begin
@@ -334,7 +339,11 @@ def c02(case: dict, cv: CallView, out: list, tol_s: float = 0.0) -> dict:
                 s = e[2]
                 t_rel = e[4] - b_s
                 remaining = D - t_rel
-                if not isinstance(s, (int, float)) or isinstance(s, bool) or math.isnan(s) or s < 0 or s > remaining + tol_s:
+                try:
+                    s = float(s)  # Decimal / Fraction delays are numbers too
+                except (TypeError, ValueError):
+                    s = float("nan")
+                if math.isnan(s) or s < 0 or s > remaining + tol_s:
                     out.append(("C02:sleep-exceeds-remaining", f"sleep of {s!r}s requested at {t_rel}s with deadline_s={D} (remaining {remaining})"))
                 else:
                     total_sleep += s
@@ -606,7 +615,7 @@ def c04(case: dict, cv: CallView, out: list) -> dict:
     info["mixed"] = len(causes) > 1 or sum(1 for b in cv.atts if failed(case, b)) >= 2
     f = cv.final
     if succeeded(case, a):
-        if f["via"] != "return" or f["value_idx"] != a.n - 1:
+        if f["via"] != "return" or not _is(cv, f["value_idx"], a.n - 1):
             out.append(("C04:wrong-return-value", f"attempt {a.n} succeeded but call() delivered {f}"))
         return info
     if not failed(case, a):
@@ -618,7 +627,7 @@ def c04(case: dict, cv: CallView, out: list) -> dict:
     deferred = deferred_delay(cv)
     cause = "exception" if a.kind in ("exc", "copen") else "result"
     if cause == "exception" and deferred is None:
-        if f["via"] != "raise" or f.get("idx") != a.n - 1:
+        if f["via"] != "raise" or not _is(cv, f.get("idx"), a.n - 1):
             out.append(("C04:wrong-exception", f"retries stopped on the exception of attempt {a.n} but call() delivered {f}"))
             return info
         x = cv.objs[a.n - 1]
@@ -641,10 +650,10 @@ def c04(case: dict, cv: CallView, out: list) -> dict:
     if f["last_class"] != a.klass:
         out.append(("C04:last_class", f"RetryExhaustedError.last_class={f['last_class']} but the final failure was {a.klass}"))
     if cause == "result":
-        if f["last_res_idx"] != a.n - 1 or f["last_exc_idx"] is not None:
+        if not _is(cv, f["last_res_idx"], a.n - 1) or f["last_exc_idx"] is not None:
             out.append(("C04:last_result", f"RetryExhaustedError does not carry the final result of attempt {a.n}: {f}"))
     else:
-        if f["last_exc_idx"] != a.n - 1 or f["last_res_idx"] is not None:
+        if not _is(cv, f["last_exc_idx"], a.n - 1) or f["last_res_idx"] is not None:
             out.append(("C04:last_exception", f"RetryExhaustedError does not carry the final exception of attempt {a.n}: {f}"))
     if deferred is not None:
         if f["stop_reason"] != "SCHEDULED" or f["next_sleep_s"] != deferred:
@@ -684,7 +693,7 @@ def c11(case: dict, cv: CallView, out: list, has_retry: bool = True) -> dict:
         out.append(("C11:attempts", f"outcome.attempts={f['attempts']} but the operation ran {nops} times"))
     last = cv.atts[-1] if cv.atts else None
     if last is not None and succeeded(case, last):
-        if not f["ok"] or f["value_idx"] != last.n - 1:
+        if not f["ok"] or not _is(cv, f["value_idx"], last.n - 1):
             out.append(("C11:ok-value", f"final attempt {last.n} succeeded but outcome is ok={f['ok']} value_idx={f['value_idx']}"))
         if f["stop_reason"] is not None or f["last_class"] is not None or f["last_exc_idx"] is not None or f["last_res_idx"] is not None or f["cause"] is not None or f["next_sleep_s"] is not None:
             out.append(("C11:ok-extra-fields", f"ok outcome carries failure fields: {f}"))
@@ -714,9 +723,9 @@ def c11(case: dict, cv: CallView, out: list, has_retry: bool = True) -> dict:
         a, cause = cnd
         if f["last_class"] != a.klass or f["cause"] != cause:
             bad.append(("C11:last_class/cause", f"outcome last_class={f['last_class']} cause={f['cause']} but the final failure (attempt {a.n}) was {a.klass}/{cause}"))
-        if cause == "exception" and (f["last_exc_idx"] != a.n - 1 or f["last_res_idx"] is not None):
+        if cause == "exception" and (not _is(cv, f["last_exc_idx"], a.n - 1) or f["last_res_idx"] is not None):
             bad.append(("C11:last_exception", f"outcome does not carry exactly the exception of attempt {a.n}: exc_idx={f['last_exc_idx']} res_idx={f['last_res_idx']}"))
-        if cause == "result" and (f["last_res_idx"] != a.n - 1 or f["last_exc_idx"] is not None):
+        if cause == "result" and (not _is(cv, f["last_res_idx"], a.n - 1) or f["last_exc_idx"] is not None):
             bad.append(("C11:last_result", f"outcome does not carry exactly the result of attempt {a.n}: exc_idx={f['last_exc_idx']} res_idx={f['last_res_idx']}"))
         return bad
 
@@ -817,6 +826,13 @@ def c05(case: dict, cv: CallView, out: list) -> dict:
     return info
 
 
+def _is(cv, got_idx, want_idx) -> bool:
+    """Object identity by index (several attempts may produce the very same object)."""
+    if got_idx is None:
+        return False
+    return got_idx == want_idx or (got_idx in cv.objs and want_idx in cv.objs and cv.objs[got_idx] is cv.objs[want_idx])
+
+
 def _same_float(a: Any, b: Any) -> bool:
     if a is None or b is None:
         return a is None and b is None
@@ -877,14 +893,14 @@ def c13(case: dict, cv: CallView, out: list) -> dict:
             if any(e[0] == "classify" and e[3] == tname for e in a.ev):
                 out.append((f"C13:{tname}-classified", f"{tname} was handed to the classifier"))
             f = cv.final
-            same = f["via"] == "raise" and f.get("idx") == a.n - 1
+            same = f["via"] == "raise" and _is(cv, f.get("idx"), a.n - 1)
             if not same and case["cfg"].get("attempt_timeout") is not None and f["via"] == "raise" and f.get("type") == tname:
                 same = True  # asyncio.wait_for runs the attempt in an inner task; the loop re-creates CancelledError
             if not same:
                 out.append((f"C13:{tname}-not-propagated", f"operation raised {tname} at attempt {a.n} but the call ended with {f}"))
         elif a.kind == "rexh":
             f = cv.final
-            if f["via"] != "raise" or f.get("idx") != a.n - 1 or not last:
+            if f["via"] != "raise" or not _is(cv, f.get("idx"), a.n - 1) or not last:
                 out.append(("C13:nested-RetryExhaustedError", f"operation raised RetryExhaustedError at attempt {a.n} but the call ended with {f}"))
     return info
 
